@@ -245,6 +245,11 @@ def run_case(case):
             "trace_full": S.trace[:600] if case["cls"] in ("Dimension", "Prefix", "Unit", "Logarithm", "LogUnit") else None}
 
 def run(data):
+    global BLOCK_TIMEOUT
+    if data.get("slow"):
+        # a second look at schedules whose recorded order did not replay: wait much longer before deciding that a thread is blocked rather
+        # than slow, so that the recorded order of lines is the order of execution even on a loaded machine
+        BLOCK_TIMEOUT = 0.5
     return {"results": [run_case(c) for c in data["cases"]]}
 
 implib.main_io(run)
